@@ -670,6 +670,22 @@ pub fn text_value_from_type2<'a>(cddl: &'a CDDL, t2: &'a Type2<'a>) -> Option<&'
 
 /// Unwrap array, map or tag type rule from ident
 pub fn unwrap_rule_from_ident<'a>(cddl: &'a CDDL, ident: &Identifier) -> Option<&'a Rule<'a>> {
+  unwrap_rule_from_ident_on_path(cddl, ident, &mut Vec::new())
+}
+
+/// `path` holds the rule names already followed, so that a cyclic alias
+/// (`b = b`) yields `None` instead of unbounded recursion
+fn unwrap_rule_from_ident_on_path<'a>(
+  cddl: &'a CDDL,
+  ident: &Identifier,
+  path: &mut Vec<String>,
+) -> Option<&'a Rule<'a>> {
+  let name = ident.to_string();
+  if path.contains(&name) {
+    return None;
+  }
+  path.push(name);
+
   cddl.rules.iter().find_map(|r| match r {
     Rule::Type {
       rule:
@@ -702,7 +718,7 @@ pub fn unwrap_rule_from_ident<'a>(cddl: &'a CDDL, ident: &Identifier) -> Option<
           None
         }
       }) {
-        unwrap_rule_from_ident(cddl, ident)
+        unwrap_rule_from_ident_on_path(cddl, ident, path)
       } else {
         None
       }
